@@ -531,7 +531,7 @@ func c03CFFRuns(r *run.Run) {
 // independent implementation must be able to load the glyph (it counts the stems to know how long a mask is).
 func c03CFFHints(r *run.Run) {
 	r.Explore(explore.Config{Name: "C03.cff-hints"},
-		"CFF fonts written with Font.Write whose glyph 'A' has 0..3 horizontal and 0..3 vertical stem hints and no mask, a hint mask or counter mask as the first command, a hint mask after the first line or after the first contour, or both, with the glyph's own or the default width: container walk, and golang.org/x/image loads every glyph and agrees on the outlines",
+		"CFF fonts written with Font.Write whose glyph 'A' has 0..3 horizontal and 0..3 vertical stem hints and no mask, a hint mask or counter mask as the first command, a hint mask after the first line or after the first contour, or both, with the glyph's own or the default width, the second contour starting elsewhere or exactly where the first ended: container walk, and golang.org/x/image loads every glyph and agrees on the outlines",
 		func(c *explore.Ctx) {
 			nh := c.Choose(4, "hstems")
 			nv := c.Choose(4, "vstems")
@@ -573,12 +573,19 @@ func c03CFFHints(r *run.Run) {
 			if place == 4 || place == 5 {
 				mask(cff.OpHintMask, 0x40)
 			}
-			g.MoveTo(50, 50)
+			// the second contour starts somewhere else, or exactly where the first one ended (a moveto
+			// without any displacement still begins a new contour)
+			touching := c.Bool("the second contour starts where the first ended")
+			if touching {
+				g.MoveTo(100, 300)
+			} else {
+				g.MoveTo(50, 50)
+			}
 			g.LineTo(80, 50)
 			g.LineTo(60, 90)
 			ol.Glyphs[gid] = g
 			f.Outlines = &ol
-			desc := fmt.Sprintf("%d hstems, %d vstems, mask placement %d, width %v", nh, nv, place, w)
+			desc := fmt.Sprintf("%d hstems, %d vstems, mask placement %d, width %v, touching contours %v", nh, nv, place, w, touching)
 			c.Sample(func() any { return desc })
 			c.Outcome(desc)
 			buf := &bytes.Buffer{}
